@@ -73,9 +73,10 @@ def safe(ctx, cid, site, P, f, *a, **k):
 class State3:
     names = ('SO3', 'SE3', 'UQ', 'Twist3', 'UDQ')
 
-    def __init__(self, M, objs):
+    def __init__(self, M, objs, sc=1.0):
         self.M = M
         self.o = objs           # dict name -> library object or None (representation lost after a reported failure)
+        self.sc = max(sc, tsc(M))   # largest translation magnitude among this state and the operands that produced it
 
 
 def embed3(ctx, cid, P, M):
@@ -115,13 +116,13 @@ def step3(ctx, cid, P, st, g, how):
             if how == 'mull':
                 a, b = b, a
             o[n] = safe(ctx, cid, n + '.mul', P, lambda a=a, b=b: a * b)
-    return State3(M, o)
+    return State3(M, o, max(st.sc, g.sc if g is not None else 1.0))
 
 
 def check3(ctx, cid, P, st, deep=True):
     """invariant of a 3-D product state"""
     S = sm()
-    M, R, sc = st.M, st.M[:3, :3], tsc(st.M)
+    M, R, sc = st.M, st.M[:3, :3], st.sc      # 1e-6 relative to the data magnitude of the whole history (cancelling translations)
     o = st.o
     X, Rr, q, tw, dq = o.get('SE3'), o.get('SO3'), o.get('UQ'), o.get('Twist3'), o.get('UDQ')
     if X is not None:
@@ -207,8 +208,9 @@ POINTS2 = [('e', np.array([1.0, 0])), ('g', np.array([0.5, -1.5])), ('1e3', np.a
 class State2:
     names = ('SO2', 'SE2', 'Twist2')
 
-    def __init__(self, M, objs):
+    def __init__(self, M, objs, sc=1.0):
         self.M, self.o = M, objs
+        self.sc = max(sc, tsc(M))
 
 
 def embed2(ctx, cid, P, M):
@@ -238,12 +240,12 @@ def step2(ctx, cid, P, st, g, how):
             if how == 'mull':
                 a, b = b, a
             o[n] = safe(ctx, cid, n + '.mul', P, lambda a=a, b=b: a * b)
-    return State2(M, o)
+    return State2(M, o, max(st.sc, g.sc if g is not None else 1.0))
 
 
 def check2(ctx, cid, P, st, deep=True):
     S = sm()
-    M, R, sc = st.M, st.M[:2, :2], tsc(st.M)
+    M, R, sc = st.M, st.M[:2, :2], st.sc
     X, Rr, tw = st.o.get('SE2'), st.o.get('SO2'), st.o.get('Twist2')
     if X is not None:
         cmp(ctx, cid, 'SE2', P, X.A, M, sc, 'SE2 value')
